@@ -114,6 +114,7 @@ type PathResult struct {
 
 type Interp struct {
 	P         *Program
+	convFrame *frame // frame of the conversion / range instruction being executed (for calls into unicode/utf8)
 	ts        *TermStore
 	sol       *Solver
 	globals   map[*ssa.Global]*Obj
@@ -821,8 +822,10 @@ func (in *Interp) eval(fr *frame, v ssa.Value) Value {
 	case *ssa.ChangeType:
 		return fr.get(x.X)
 	case *ssa.Convert:
+		in.convFrame = fr
 		return in.convert(x.X.Type(), x.Type(), fr.get(x.X))
 	case *ssa.MultiConvert:
+		in.convFrame = fr
 		return in.convert(x.X.Type(), x.Type(), fr.get(x.X))
 	case *ssa.ChangeInterface:
 		return fr.get(x.X)
@@ -884,6 +887,7 @@ func (in *Interp) eval(fr *frame, v ssa.Value) Value {
 	case *ssa.Range:
 		return in.makeRange(x, fr.get(x.X))
 	case *ssa.Next:
+		in.convFrame = fr
 		return in.next(x, fr.get(x.Iter).(*rangeIter))
 	case *ssa.Select:
 		return in.selectOp(fr, x)
@@ -1315,6 +1319,8 @@ func (in *Interp) equal(t types.Type, a, b Value) *Term {
 	panic(engineErr("equal: unsupported %T (%v)", a, t))
 }
 
+func (in *Interp) curFrame() *frame { return in.convFrame }
+
 func (in *Interp) convert(from, to types.Type, v Value) Value {
 	ts := in.ts
 	uf, ut := under(from), under(to)
@@ -1368,7 +1374,12 @@ func (in *Interp) convert(from, to types.Type, v Value) Value {
 						for i := 0; i < x.Len; i++ {
 							r := x.Obj.Slots[x.Off+i].(*Term)
 							if !r.IsConst() {
-								panic(engineErr("symbolic []rune to string"))
+								// symbolic runes: the real encoder (unicode/utf8.AppendRune) per rune
+								var out []*Term
+								for j := 0; j < x.Len; j++ {
+									out = append(out, in.encodeRune(x.Obj.Slots[x.Off+j].(*Term))...)
+								}
+								return Str{out}
 							}
 							sb.WriteRune(rune(int32(r.Val)))
 						}
@@ -1386,7 +1397,7 @@ func (in *Interp) convert(from, to types.Type, v Value) Value {
 					if in.Branch(ts.Ult(ts.Resize(x, 64, false), ts.Const(64, 0x80))) {
 						return Str{[]*Term{ts.Resize(x, 8, false)}}
 					}
-					panic(engineErr("symbolic non-ASCII rune to string"))
+					return Str{in.encodeRune(ts.Resize(x, 32, true))}
 				}
 				return in.strConst(string(rune(sext64(x.Val, x.Sort.W))))
 			}
@@ -1412,13 +1423,15 @@ func (in *Interp) convert(from, to types.Type, v Value) Value {
 			if eb.Kind() == types.Int32 {
 				cs, ok := s.Concrete()
 				if !ok {
-					// ASCII-only symbolic strings
-					out := make([]*Term, len(s.B))
-					for i, b := range s.B {
-						if !in.Branch(ts.Ult(b, in.byteConst(0x80))) {
-							panic(engineErr("symbolic non-ASCII string to []rune"))
-						}
-						out[i] = ts.Zext(b, 32)
+					// symbolic strings: the real decoder (unicode/utf8.DecodeRuneInString) rune by rune
+					var out []*Term
+					for pos := 0; pos < len(s.B); {
+						r, size := in.decodeRuneSym(s.B[pos:])
+						out = append(out, r)
+						pos += size
+					}
+					if len(out) == 0 {
+						return Slice{Obj: in.newArray(t.Elem(), 0)}
 					}
 					o := in.newByteSlice(out)
 					return o
@@ -1729,18 +1742,10 @@ func (in *Interp) next(x *ssa.Next, it *rangeIter) Value {
 			it.pos++
 			return Tuple{ts.True, in.intConst(int64(i)), ts.Zext(b, 32)}
 		}
-		// multi-byte: need concrete bytes
-		rest := Str{it.str.B[i:]}
-		if len(rest.B) > 4 {
-			rest = Str{rest.B[:4]}
-		}
-		buf := make([]byte, len(rest.B))
-		for j, t := range rest.B {
-			buf[j] = byte(in.Concretize(t))
-		}
-		r, size := decodeRune(buf)
+		// multi-byte: the real decoder
+		r, size := in.decodeRuneSym(it.str.B[i:])
 		it.pos += size
-		return Tuple{ts.True, in.intConst(int64(i)), ts.Const(32, uint64(uint32(r)))}
+		return Tuple{ts.True, in.intConst(int64(i)), r}
 	}
 	if it.pos >= len(it.m) {
 		tt := x.Type().(*types.Tuple)
@@ -1749,6 +1754,41 @@ func (in *Interp) next(x *ssa.Next, it *rangeIter) Value {
 	e := it.m[it.pos]
 	it.pos++
 	return Tuple{ts.True, e.K, e.V}
+}
+
+// decodeRuneSym decodes the first rune of a non-empty byte string by executing the real
+// unicode/utf8.DecodeRuneInString from its SSA (symbolic bytes fork as that code branches).
+func (in *Interp) decodeRuneSym(b []*Term) (*Term, int) {
+	if len(b) > 4 {
+		b = b[:4]
+	}
+	if cs, ok := (Str{b}).Concrete(); ok {
+		r, size := decodeRune([]byte(cs))
+		return in.ts.Const(32, uint64(uint32(r))), size
+	}
+	p := in.P.Pkgs["unicode/utf8"]
+	if p == nil || p.Func("DecodeRuneInString") == nil {
+		panic(engineErr("unicode/utf8 not loaded"))
+	}
+	res := in.call(p.Func("DecodeRuneInString"), []Value{Str{b}}, nil, in.curFrame()).(Tuple)
+	size := res[1].(*Term)
+	if !size.IsConst() {
+		size = in.ts.Const(64, uint64(in.Concretize(size)))
+	}
+	return res[0].(*Term), int(size.Val)
+}
+
+// encodeRune is utf8.AppendRune(nil, r) executed from its SSA.
+func (in *Interp) encodeRune(r *Term) []*Term {
+	if r.IsConst() {
+		return in.strConst(string(rune(int32(r.Val)))).B
+	}
+	p := in.P.Pkgs["unicode/utf8"]
+	if p == nil || p.Func("AppendRune") == nil {
+		panic(engineErr("unicode/utf8 not loaded"))
+	}
+	res := in.call(p.Func("AppendRune"), []Value{Slice{}, r}, nil, in.curFrame()).(Slice)
+	return in.sliceBytes(res)
 }
 
 func decodeRune(b []byte) (rune, int) {
